@@ -693,7 +693,33 @@ pub fn run(cfg: &RunCfg, rep: &mut Report) {
         for op in &ops {
             rep.eval();
             let before: Vec<bitcoin::psbt::Input> = psbt.inputs.clone();
+            let psbt_before = psbt.clone();
             let out = apply(&world, &s, &mut psbt, op);
+            // the consuming variants of the same operation must do exactly what the _mut ones do
+            if matches!(op, Op::FinAll(_) | Op::FinInp(..)) && !matches!(out, Outcome::Panic(_)) {
+                let twin = guarded(std::panic::AssertUnwindSafe(|| match op {
+                    Op::FinAll(false) => psbt_before.clone().finalize(&world.secp).map_err(|(p, _)| p),
+                    Op::FinAll(true) => psbt_before.clone().finalize_mall(&world.secp).map_err(|(p, _)| p),
+                    Op::FinInp(k, false) => psbt_before.clone().finalize_inp(&world.secp, *k).map_err(|(p, _)| p),
+                    Op::FinInp(k, true) => psbt_before.clone().finalize_inp_mall(&world.secp, *k).map_err(|(p, _)| p),
+                    _ => unreachable!(),
+                }));
+                match twin {
+                    Err(m) => rep.violation(i, format!("C14:panic:consuming-finalize:{}", norm_loc(&last_panic_loc())), format!("{:?} (consuming variant) panicked ({}): {}", op, m, describe(&s, &hist))),
+                    Ok(r) => {
+                        let (ok2, p2) = match r {
+                            Ok(p) => (true, p),
+                            Err(p) => (false, p),
+                        };
+                        let ok1 = matches!(out, Outcome::Ok);
+                        if ok1 != ok2 || p2 != psbt {
+                            rep.violation(i, "C14:consuming-variant-differs".into(), format!("{:?}: the _mut variant returned {} and the consuming variant {}, resulting PSBTs equal = {}: {}", op, if ok1 { "Ok" } else { "Err" }, if ok2 { "Ok" } else { "Err" }, p2 == psbt, describe(&s, &hist)));
+                        } else {
+                            rep.count("consuming-variant-equals-mut-variant");
+                        }
+                    }
+                }
+            }
             let tag = match &out {
                 Outcome::Ok => "ok".to_string(),
                 Outcome::Err(v) => format!("err{:?}", v),
